@@ -87,6 +87,18 @@ def aaazzzsDecode (id : Nat) : Nat × Nat × Nat := (id / 10 % 1000, id / 10000,
 /-- from a label: (symbol, a mod 10^(4-len), state) -/
 def labelDecode (l : Nat × Nat × Nat) : Nat × Nat × Nat := (l.1, l.2.1 * 10 + l.2.2 % 10, l.2.2 / 10)
 
+/-- decoder of the MCNP id for an element whose isotopes lie in the mass window [a0, a0+100) (what `isoOk` checks for
+every element of nuclides.dat): z = id div 1000; the mass number is the value congruent to the low part modulo 100
+inside the window; the offset (0, 400, 500, 600) gives the isomeric state, with the Am-242 ground/first-isomer swap. -/
+def mcnpDecode (a0 : Nat) (id : Nat) : Nat × Nat × Nat :=
+  let z := id / 1000
+  let m := id % 1000
+  let a := a0 + (m + 100 - a0 % 100) % 100
+  let off := m - a
+  let s0 := if off = 0 then 0 else off / 100 - 3
+  let s := if z = 95 ∧ a = 242 ∧ s0 ≤ 1 then 1 - s0 else s0
+  (z, a, s)
+
 /-- total order key of a nuclide -/
 def fullKey (z a s : Nat) : Nat := (z * 1000 + a) * 10 + s
 
@@ -246,5 +258,17 @@ def parseSym (s : String) : Option Nat :=
   | [c] => if c.isUpper then some ((c.toNat - 64) * 27) else none
   | [c, d] => if c.isUpper ∧ d.isUpper then some ((c.toNat - 64) * 27 + (d.toNat - 64)) else none
   | _ => none
+
+
+/-! ### material library: the base-class density formulas of armi/materials/material.py (exact `Rat`) -/
+
+/-- `Material.density`: refDens / (1 + dLL/100)³ (mass-conserving 3-D expansion) -/
+def matDensity (refDens dLL : Rat) : Rat := refDens / (1 + dLL / 100) ^ 3
+
+/-- `Material.pseudoDensity`: refDens / (1 + dLL/100)² (2-D expansion; what components use for number densities) -/
+def matPseudoDensity (refDens dLL : Rat) : Rat := refDens / (1 + dLL / 100) ^ 2
+
+/-- `checkTempRange`: the value is inside the stated range -/
+def tempInRange (minT maxT v : Rat) : Bool := decide (minT ≤ v) && decide (v ≤ maxT)
 
 end ArmiVerif.Nuclide
